@@ -1,5 +1,6 @@
 import Capella.Lemmas.Query
 import Capella.Lemmas.QueryList
+import Capella.Lemmas.QuerySlice
 import Capella.Lemmas.QueryTable
 import Capella.Gen.Hier
 import Capella.Gen.HierRels
@@ -510,6 +511,130 @@ theorem findrefs_complete_needs_nohref :
   revert this
   decide
 
+
+/-! ## order of search results, indices, slices, single-valued back-references -/
+
+/-- In a state whose index lists the nodes of a type in document order (a freshly loaded model), a
+search for one type returns exactly the document-order scan — equal as lists, not only as sets. -/
+theorem search_single_type_document_order (nodes : List Node) (idx : Index) (hc : IndexConsistent nodes idx)
+    (xt : Str) (below : Option Nat) (hs : indexSortedB idx xt = true) :
+    search nodes idx [xt] below = scan nodes [xt] below := by
+  apply pairwise_lt_ext
+  · unfold search
+    refine List.Pairwise.sublist (List.Sublist.trans List.filter_sublist List.filter_sublist) ?_
+    exact pairwise_of_adjacent _ (by simpa [indexSortedB] using hs)
+  · unfold scan
+    exact List.Pairwise.sublist List.filter_sublist List.pairwise_lt_range
+  · exact fun x => search_sound_complete nodes idx hc [xt] below x
+
+/-- `lst[i]`: a non-negative index counts from the front, a negative one from the back; anything
+outside `-len … len-1` is an `IndexError`. -/
+theorem index_spec {α : Type} (l : List α) (i : Int) :
+    (0 ≤ i → pyIndex l i = l[i.toNat]?) ∧
+    (i < 0 → pyIndex l i = if (l.length : Int) + i < 0 then none else l[((l.length : Int) + i).toNat]?) :=
+  ⟨pyIndex_nonneg l i, pyIndex_neg l i⟩
+
+/-- `lst[start:stop:step]` for every start / stop / step (`None`, negative, out of range): with
+`(a, b, st) = slice.indices(len)`, the result consists of the elements at `a, a+st, a+2·st, …` — all
+of them valid positions strictly before `b` (after `b` for a negative step), and the progression is
+not cut short. Step 0 is the only `ValueError`. -/
+theorem slice_spec {α : Type} (s : Slice) (l : List α) :
+    (pySlice s l = none ↔ s.step = some 0) ∧
+    ∀ r, pySlice s l = some r → ∃ a b st, sliceIndices s l.length = some (a, b, st) ∧
+      r.length = sliceLen a b st ∧
+      (∀ j : Nat, j < r.length → r[j]? = l[(a + j * st).toNat]? ∧ 0 ≤ a + j * st ∧ a + j * st < l.length ∧
+        (0 < st → a + j * st < b) ∧ (st < 0 → b < a + j * st)) ∧
+      (0 < st → b ≤ a + (r.length : Int) * st ∨ b ≤ a) ∧ (st < 0 → a + (r.length : Int) * st ≤ b ∨ a ≤ b) := by
+  constructor
+  · unfold pySlice sliceIndices
+    cases hs : s.step with
+    | none => simp
+    | some v => by_cases hv : v = 0 <;> simp [hv]
+  · intro r h
+    unfold pySlice at h
+    cases hi : sliceIndices s l.length with
+    | none => rw [hi] at h; cases h
+    | some t =>
+      obtain ⟨a, b, st⟩ := t
+      rw [hi] at h
+      simp only [Option.some.injEq] at h
+      refine ⟨a, b, st, rfl, ?_⟩
+      have hst : st ≠ 0 := by
+        unfold sliceIndices at hi
+        simp only [] at hi
+        split at hi
+        · cases hi
+        · rename_i hne
+          simp only [Option.some.injEq, Prod.mk.injEq] at hi
+          rw [← hi.2.2]; exact hne
+      rcases Int.lt_or_gt_of_ne hst with hneg | hpos
+      · obtain ⟨ha1, ha2, hb1, hb2⟩ := sliceIndices_neg s l.length a b st hi hneg
+        have hrange : ∀ j : Nat, j < sliceLen a b st → b < a + j * st ∧ a + j * st ≤ a := by
+          intro j hj
+          have hm : (j : Int) * st ≤ 0 := Int.mul_nonpos_of_nonneg_of_nonpos (by omega) (by omega)
+          rcases sliceLen_neg a b st hneg with ⟨h1, _⟩ | ⟨_, h0⟩
+          · exact ⟨h1 j hj, by omega⟩
+          · rw [h0] at hj; exact absurd hj (Nat.not_lt_zero j)
+        obtain ⟨hl, hg⟩ := takeStep_spec l st (sliceLen a b st) a (by
+          intro j hj
+          have := hrange j hj
+          omega)
+        subst h
+        refine ⟨hl, ?_, fun hp => absurd hp (by omega), ?_⟩
+        · intro j hj
+          rw [hl] at hj
+          have := hrange j hj
+          exact ⟨hg j hj, by omega, by omega, fun hp => absurd hp (by omega), fun _ => this.1⟩
+        · intro _
+          rw [hl]
+          rcases sliceLen_neg a b st hneg with ⟨_, h2⟩ | ⟨h2, _⟩
+          · exact Or.inl h2
+          · exact Or.inr h2
+      · obtain ⟨ha1, ha2, hb1, hb2⟩ := sliceIndices_pos s l.length a b st hi hpos
+        have hrange : ∀ j : Nat, j < sliceLen a b st → a + j * st < b ∧ a ≤ a + j * st := by
+          intro j hj
+          have hm : 0 ≤ (j : Int) * st := Int.mul_nonneg (by omega) (by omega)
+          rcases sliceLen_pos a b st hpos with ⟨h1, _⟩ | ⟨_, h0⟩
+          · exact ⟨h1 j hj, by omega⟩
+          · rw [h0] at hj; exact absurd hj (Nat.not_lt_zero j)
+        obtain ⟨hl, hg⟩ := takeStep_spec l st (sliceLen a b st) a (by
+          intro j hj
+          have := hrange j hj
+          omega)
+        subst h
+        refine ⟨hl, ?_, ?_, fun hn => absurd hn (by omega)⟩
+        · intro j hj
+          rw [hl] at hj
+          have := hrange j hj
+          exact ⟨hg j hj, by omega, by omega, fun _ => this.1, fun hn => absurd hn (by omega)⟩
+        · intro _
+          rw [hl]
+          rcases sliceLen_pos a b st hpos with ⟨_, h2⟩ | ⟨h2, _⟩
+          · exact Or.inl h2
+          · exact Or.inr h2
+
+/-- A single-valued back-reference (`aslist=None`) hands out `None` for no referrer, the referrer
+for exactly one, and raises for several; a list-valued one hands out the list. -/
+theorem backref_single_spec (l : List Nat) :
+    noList true l = some (.list l) ∧
+    (noList false l = some (.one none) ↔ l = []) ∧
+    (∀ x, noList false l = some (.one (some x)) ↔ l = [x]) ∧
+    (noList false l = none ↔ 2 ≤ l.length) := by
+  refine ⟨rfl, ?_, ?_, ?_⟩
+  · match l with
+    | [] => simp [noList]
+    | [_] => simp [noList]
+    | _ :: _ :: _ => simp [noList]
+  · intro x
+    match l with
+    | [] => simp [noList]
+    | [_] => simp [noList]
+    | _ :: _ :: _ => simp [noList]
+  · match l with
+    | [] => simp [noList]
+    | [_] => simp [noList]
+    | _ :: _ :: _ => simp [noList]
+
 -- Non-vacuity
 def exNodes : List Node :=
   [{ uid := "p".toList, xtype := "a:Pkg".toList },
@@ -528,5 +653,36 @@ example : bruteRefs exNodes exRels 2 = [(1, "allocated".toList, 0)] := by decide
 example : filterBy true false id [.s "a".toList] [some (.atom (.s "a".toList)), none, some (.many [.s "b".toList])]
     = [none, some (.many [.s "b".toList])] := by decide
 example : single [1, 2] = (.error .multiple : Except SingleErr Nat) := rfl
+
+-- list model
+deriving instance DecidableEq for Except
+def exWorld : World := fun n a =>
+  if a = "name".toList then (if n = 0 then some (.atom (.s "A".toList)) else if n = 1 then some (.atom (.s "B".toList)) else none)
+  else if a = "parent".toList then (if n = 1 then some (.obj 0) else if n = 2 then some (.obj 0) else none)
+  else none
+example : call exWorld ⟨["name".toList], true, false, false⟩ [.s "A".toList] (some false) [0, 1, 2] = .ok (.list [0]) := by decide
+example : call exWorld ⟨["name".toList], false, false, false⟩ [.s "A".toList] (some false) [0, 1, 2] = .ok (.list [1, 2]) := by decide
+example : call exWorld ⟨["parent".toList, "name".toList], true, false, false⟩ [.s "A".toList] none [0, 1, 2] = .ok (.list [1, 2]) := by decide
+example : call exWorld ⟨["name".toList], true, true, false⟩ [.s "Z".toList] none [0, 1, 2] = .error .keyError := by decide
+example : iterKeys exWorld ⟨["name".toList], true, false, false⟩ [0, 1] [] = .ok [.s "A".toList, .s "B".toList] := by decide
+example : iterKeys exWorld ⟨["name".toList], true, false, false⟩ [0, 1, 2] [] = .error .attributeError := by decide
+example : map1 exWorld (fun n => [Char.ofNat (65 + n)]) "parent".toList [0, 1, 2] = .ok [0] := by decide
+example : filterPath exWorld ["name".toList] [0, 1, 2] = .error .attributeError := by decide
+example : pySlice { start := some (-2), step := some (-1) } [10, 11, 12, 13] = some [12, 11, 10] := by decide
+example : pySlice { start := some 1, stop := some 100, step := some 2 } [10, 11, 12, 13] = some [11, 13] := by decide
+example : pySlice { step := some 0 } [1, 2] = (none : Option (List Nat)) := by decide
+example : pyIndex [10, 11, 12] (-1) = some 12 ∧ pyIndex [10, 11, 12] 3 = none ∧ pyIndex [10, 11, 12] (-4) = none := by decide
+example : parseName true "by_type".toList ≠ parseName false "by_type".toList := by decide
+-- generated tables: a back-reference whose candidates include a proper subclass of its target class
+example : (Gen.Hier.backrefs.any (fun b => Gen.Hier.handlers.any (fun h =>
+    isInst h b.targets && !b.targets.contains h.cls))) = true := by decide +kernel
+-- ... single-valued and multi-target back-references exist
+example : (Gen.Hier.backrefs.any (fun b => !b.aslist)) = true ∧
+    (Gen.Hier.backrefs.any (fun b => decide (2 ≤ b.targets.length))) = true := by decide +kernel
+-- ... single-valued link rows, wrappers and both link-storing kinds occur in the relation table
+example : (Gen.HierRels.rows.any (fun r => r.kind.linkStoring && !r.aslist)) = true ∧
+    (Gen.HierRels.rows.any (fun r => r.kind.isWrapper)) = true := by decide +kernel
+example : noList false [3, 4] = none ∧ noList false [3] = some (.one (some 3)) := by decide
+example : indexSortedB exIdx "a:Fn".toList = true := by decide
 
 end Capella.Props.C10
